@@ -187,36 +187,53 @@ DRIVER_BIN = os.path.join(LEAN, ".lake", "build", "bin", "driver")
 # ---------------------------------------------------------------------------------------
 # running cases
 
-def run_bin(binpath, lines, timeout=600, env=None):
-    """Feed `lines` (with ids) to a line-protocol binary; returns {id: output}.  If the
-    process dies (abort) or stops answering (timeout), the offending case is marked
-    `abort` / `timeout` and the run continues after it."""
+def run_bin(binpath, lines, timeout=240, env=None):
+    """Feed `lines` (with ids) to a line-protocol binary; returns {id: output}.  `timeout` is a per-case limit: if the
+    process dies (abort) or gives no answer for `timeout` seconds (timeout), the case in flight is marked `abort` /
+    `timeout` and the run continues after it.  A run that keeps answering is never cut short."""
+    import select, threading
     res = {}
     pending = list(lines)
     while pending:
         proc = subprocess.Popen([binpath], stdin=subprocess.PIPE, stdout=subprocess.PIPE,
-                                stderr=subprocess.DEVNULL, text=True, env=env or ENV)
-        timed_out = False
-        try:
-            out, _ = proc.communicate("\n".join(pending) + "\n", timeout=timeout)
-        except subprocess.TimeoutExpired:
-            proc.kill()
-            out, _ = proc.communicate()
-            timed_out = True
-        got = 0
-        for l in out.split("\n"):
-            if not l.strip():
-                continue
-            i, _, r = l.partition(" ")
-            res[i] = r
-            got += 1
+                                stderr=subprocess.DEVNULL, env=env or ENV)
+        data = ("\n".join(pending) + "\n").encode()
+
+        def feed(p=proc, d=data):
+            try:
+                p.stdin.write(d)
+                p.stdin.close()
+            except (BrokenPipeError, OSError):
+                pass
+        th = threading.Thread(target=feed, daemon=True)
+        th.start()
+        got, buf, timed_out = 0, b"", False
+        fd = proc.stdout.fileno()
+        while True:
+            r, _, _ = select.select([fd], [], [], timeout)
+            if not r:
+                timed_out = True
+                proc.kill()
+                break
+            chunk = os.read(fd, 1 << 16)
+            if not chunk:
+                break
+            buf += chunk
+            *full, buf = buf.split(b"\n")
+            for l in full:
+                l = l.decode(errors="replace")
+                if not l.strip():
+                    continue
+                i, _, r_ = l.partition(" ")
+                res[i] = r_
+                got += 1
+        proc.wait()
         if not timed_out and proc.returncode == 0 and got >= len(pending):
             break
         if got < len(pending):
             cid = pending[got].split(" ", 1)[0]
             res[cid] = "timeout" if timed_out else "abort"
             pending = pending[got + 1:]
-            timeout = 60 if timed_out else timeout
         else:
             break
     return res
